@@ -281,7 +281,7 @@ def run_history(scen, want_sample=False):
 
 def model_divergences(ctx, results):
     lines = [r.line for r in results]
-    replies = ctx.driver.run(lines)
+    replies = mpsim.driver_run(ctx, lines)
     out = [[] for _ in results]
     if replies is None:
         return out, 0
@@ -627,7 +627,7 @@ def run(ctx):
                 'every step; non-trivial when it contains an identity change; distinct by value-level log + final collection')
     quick = ctx.tier == 'quick'
     budget = 42.0 if quick else 420.0
-    n_random = 150 if quick else 5000
+    n_random = 350 if quick else 5000
     n_fork = 2 if quick else 200
     if ctx.broken:
         n_random *= 3
